@@ -324,7 +324,18 @@ func cmdParseFuzz(args []string) error {
 		}
 		for i := 0; i < nrand; i++ {
 			d := append([]byte(nil), data...)
-			switch rng.Intn(5) {
+			switch rng.Intn(6) {
+			case 5: // a byte-order mark, line ending, NUL or run of blanks at the start, the end or anywhere
+				toks := [][]byte{{0xEF, 0xBB, 0xBF}, {'\n', 0xEF, 0xBB, 0xBF}, {' ', 0xEF, 0xBB, 0xBF}, {0xFF, 0xFE}, {0xFE, 0xFF},
+					{'\r', '\n'}, {'\r'}, {0}, []byte("    \t\t"), []byte("\n\n\n\n"), {0xE2, 0x80, 0xA8}, {0xC3},
+					[]byte("\"\"\""), []byte("\x27\x27\x27")}
+				tok := toks[rng.Intn(len(toks))]
+				pos := []int{0, len(d), rng.Intn(len(d) + 1), 1}[rng.Intn(4)]
+				if pos > len(d) {
+					pos = len(d)
+				}
+				d = append(append(append([]byte(nil), d[:pos]...), tok...), d[pos:]...)
+				run("insert-token", d)
 			case 0: // flip bytes
 				for k := 0; k < 1+rng.Intn(4) && len(d) > 0; k++ {
 					d[rng.Intn(len(d))] ^= byte(1 << uint(rng.Intn(8)))
